@@ -25,6 +25,8 @@ func refGuess(pt []byte) []byte {
 	return nil
 }
 
+var c11Held [][2][]byte
+
 func runC11(c *mon.Ctx) {
 	c.Rule("DecryptExchangeAnswer on (a) random block-aligned ciphertexts 16..1024 bytes, (b) answers from EncryptExchangeAnswer, intact and with 1..8 flipped bits, " +
 		"(c) non-aligned lengths; oracle: independent IGE decrypt + SHA1 prefix search decides whether embedded data exists; the call must return exactly that data or an error, " +
@@ -59,6 +61,19 @@ func runC11(c *mon.Ctx) {
 			c.Violate("wrong-data", w)
 		case err != nil && want != nil:
 			c.Violate("valid-answer-rejected", w)
+		}
+		for _, h := range c11Held {
+			if !bytes.Equal(h[0], h[1]) {
+				c.Violate("earlier-result-changed-by-a-later-call", map[string]any{"was": hx(h[1]), "now": hx(h[0])})
+				c11Held = nil
+				break
+			}
+		}
+		if len(c11Held) >= 6 {
+			c11Held = c11Held[1:]
+		}
+		if err == nil && len(got) > 0 {
+			c11Held = append(c11Held, [2][]byte{got, append([]byte(nil), got...)})
 		}
 		c.Distinct(fmt.Sprintf("%s/%d/%v", class, len(ct)/16, want != nil))
 		c.Sample(class, map[string]any{"ct_len": len(ct), "has_data": want != nil, "err": fmt.Sprint(err)})
